@@ -28,10 +28,15 @@ ID = 'C17'
 NAMESPACE = 'VL.C17'
 LEAN_MODULES = ['VotelibProofs.Props.C17']
 GEN_MODULES = ['Divisor', 'RankScore']
-REQUIRED = ['ha_house_monotone', 'ha_house_monotone_general', 'ha_vote_monotone_partial',
+REQUIRED = ['ha_house_monotone', 'ha_house_monotone_general', 'ha_vote_monotone', 'ha_vote_monotone_general',
             'additive_winner_monotone', 'additive_winner_monotone_new', 'plurality_monotone_switch', 'plurality_monotone_new',
             'scorer_monotone', 'positional_monotone_lift', 'positional_monotone_new', 'approval_monotone_approve',
-            'approval_monotone_new', 'score_sum_monotone_raise', 'score_sum_monotone_new']
+            'approval_monotone_new', 'score_sum_monotone_raise', 'score_sum_monotone_new',
+            'bucklin_monotone_lift', 'bucklin_monotone_bullet', 'copeland_monotone', 'minimax_monotone']
+UNPROVED = ['schulze_monotone (beat-path strengths under Raised: needs the Floyd-Warshall correctness of widest_paths)',
+            'condorcet_lift_raised (the pairwise matrix of a lifted profile is Raised w.r.t. the base matrix; Copeland and minimax '
+            'are proved on the matrix level, the matrix relation is checked per case by the correspondence)',
+            'bucklin_monotone for split_equal_rankings=True on profiles WITH shared ranks (permutation expansion not modelled)']
 NAMES = Names(prefix='c')
 PNAMES = Names(prefix='p')
 DIVISORS = ['d_hondt', 'sainte_lague', 'imperiali', 'danish', 'macau']
@@ -523,7 +528,7 @@ def _rand_ranked(rng, m, shared_p):
     for _ in range(nb):
         b = _rand_ballot(rng, m, shared_p)
         if not any(b == x for x, _ in prof):
-            prof.append([b, str(rng.choice([1, 1, 1, 2, 2, 3, 4]))])
+            prof.append([b, rng.choice(['1', '1', '1', '2', '2', '3', '4', '3/2', '5/2', '1000001'])])
     return prof
 
 
@@ -560,6 +565,8 @@ def ranked_moves(rule, param, base, w, rng=None, limit=None, extra_tags=()):
                 tags.append('lift_out_of_shared')
             if Fraction(s) > 1:
                 tags.append('unit_of_heavier_ballot')
+            if Fraction(s).denominator != 1:
+                tags.append('fractional_weight')
             if any(nb == x for x, _ in base):
                 tags.append('merges_with_existing')
             out.append(_mk(rule, param, base, replace_unit(base, bi, nb), w, 'lift',
@@ -859,16 +866,16 @@ def generate(rng, tier):
     quick = tier == 'quick'
     for c in directed_cases():
         yield c
-    for c in gen_ha(rng, 150 if quick else 3000):
+    for c in gen_ha(rng, 500 if quick else 12000):
         yield c
-    for c in gen_plurality(rng, 60 if quick else 1500):
+    for c in gen_plurality(rng, 200 if quick else 4000):
         yield c
     for rule in RANKED_RULES:
-        for c in gen_ranked(rng, rule, 25 if quick else 500):
+        for c in gen_ranked(rng, rule, 90 if quick else 2500):
             yield c
-    for c in gen_approval(rng, 40 if quick else 800):
+    for c in gen_approval(rng, 150 if quick else 3000):
         yield c
-    for c in gen_score(rng, 40 if quick else 800):
+    for c in gen_score(rng, 150 if quick else 3000):
         yield c
     if not quick:
         for c in exhaustive_cases():
@@ -911,12 +918,12 @@ REQUIRED_COUNTERS = (['ha:house', 'ha:votes', 'ha:caps', 'ha:prev_gains', 'ha:ti
                       'plurality:switch', 'plurality:premise', 'approval:approve', 'approval:new', 'approval:premise',
                       'score_sum:raise', 'score_sum:new', 'score_sum:premise', 'minimax_unbeaten_after_move',
                       'bucklin_second_round', 'lift_unranked', 'lift_out_of_shared', 'unit_of_heavier_ballot',
-                      'merges_with_existing']
+                      'merges_with_existing', 'fractional_weight']
                      + [f'{r}:{k}' for r in RANKED_RULES for k in ('lift', 'new', 'premise')])
 
 RULE = ('highest averages: 1-5 parties, five divisors (+ modified first coefficient), n 1..9, previous gains, caps, vote '
         'increments 1 / 2 / 5 / 1/2 / 100, votes up to 10^20; winner rules: 2-4 candidates, 1-5 ballot types with weights '
-        '1-4 (truncated ballots, shared ranks), base profiles with a sole winner according to a reference computation, '
+        '1-4, 3/2, 5/2, 1000001 (truncated ballots, shared ranks), base profiles with a sole winner according to a reference computation, '
         'every single-unit lift of the winner on every ballot (sampled to 8 per profile in the quick tier) and the '
         'admissible new ballots; thorough tier adds the exhaustive scopes (<=3 parties x votes<=4 x n<=5 x 5 divisors; '
         '<=3 candidates x <=3 strict ballots x 10 ranked rules, every lift and every new ballot). Non-trivial = base '
